@@ -74,8 +74,17 @@ func genC36(r *Rand, n int, tier string, emit func(string)) {
 				emit(fmt.Sprintf("blk %s %d %s -", x.f.name, t, e))
 			}
 		}
+		// the real mini-protocol clients (one connection per op: a thinner grid in the quick tier)
 		for ht := 0; ht <= 9; ht++ {
-			emit(fmt.Sprintf("ntn %s %d %d -", x.f.name, ht, x.f.blockType&1))
+			if tier == "thorough" || ht <= 1 || uint(ht) == ledger.BlockToBlockHeaderTypeMap[x.f.blockType] || r.Chance(1, 4) {
+				emit(fmt.Sprintf("wntn %s %d %d -", x.f.name, ht, Pick(r, x.f.blockType&1, x.f.blockType&1, uint(r.Intn(4)))))
+			}
+		}
+		for t := 0; t <= 10; t++ {
+			if tier == "thorough" || uint(t) == x.f.blockType || r.Chance(1, 6) {
+				emit(fmt.Sprintf("wntc %s %d -", x.f.name, t))
+				emit(fmt.Sprintf("wbf %s %d -", x.f.name, t))
+			}
 		}
 	}
 	for k := 0; k <= 12; k++ {
@@ -104,7 +113,18 @@ func genC36(r *Rand, n int, tier string, emit func(string)) {
 			if x.patch {
 				mj = strconv.Itoa(r.Intn(24))
 			}
-			emit(fmt.Sprintf("ntn %s %d %d %s", x.f.name, r.Intn(10), r.Intn(3), mj))
+			if tier != "thorough" && !r.Chance(1, 8) {
+				emit(fmt.Sprintf("blk %s %d %s %s", x.f.name, x.f.blockType, Pick(r, c36Entries...), mj))
+				break
+			}
+			switch r.Intn(3) {
+			case 0:
+				emit(fmt.Sprintf("wntn %s %d %d %s", x.f.name, r.Intn(10), r.Intn(4), mj))
+			case 1:
+				emit(fmt.Sprintf("wntc %s %d %s", x.f.name, Pick(r, int(x.f.blockType), r.Intn(11)), mj))
+			default:
+				emit(fmt.Sprintf("wbf %s %d %s", x.f.name, Pick(r, int(x.f.blockType), r.Intn(11)), mj))
+			}
 		}
 	}
 }
@@ -338,37 +358,8 @@ func runC36(op string) string {
 			return c36Err(err)
 		}
 		return fmt.Sprintf("type=%d era=%d hera=%d", blk.Type(), blk.Era().Id, blk.Header().Era().Id)
-	case "ntn":
-		if len(f) != 5 {
-			return "bad-op"
-		}
-		ht, e1 := strconv.ParseUint(f[2], 10, 32)
-		byronType, e2 := strconv.ParseUint(f[3], 10, 32)
-		data, ok := c36Data(f[1], f[4])
-		if e1 != nil || e2 != nil || !ok {
-			return "bad-op"
-		}
-		hdr, _, _, _, _, e := g7HeaderInfo(data)
-		if e != nil {
-			return "bad-op"
-		}
-		// protocol/chainsync/client.go handleRollForward (NtN): Byron takes the
-		// sub-type from the wrapper, everything else goes through the map
-		var bt uint
-		if uint(ht) == ledger.BlockHeaderTypeByron {
-			bt = uint(byronType)
-		} else {
-			var ok bool
-			bt, ok = ledger.BlockHeaderToBlockTypeMap[uint(ht)]
-			if !ok {
-				return "err:unknown-header-type"
-			}
-		}
-		h, e := ledger.NewBlockHeaderFromCbor(bt, hdr)
-		if e != nil {
-			return c36Err(e)
-		}
-		return fmt.Sprintf("hera=%d bt=%d", h.Era().Id, bt)
+	case "wntn", "wntc", "wbf":
+		return runC36Wire(f)
 	case "maps":
 		if len(f) != 2 {
 			return "bad-op"
